@@ -207,6 +207,31 @@ def nw_programs(rng, n):
     return out
 
 
+def md_programs(n):
+    """macro invocations with a PRIVATE variable inside a disjunction and again after it:  out(c) <-- start(a), (two!(a, b) | sc(a), let b = a), two!(b, c)  with
+    macro two($x, $y) { e($x, mid), e(mid, $y) }  - by the documented expansion every invocation gets its own copy of `mid`, whichever alternative it sits in and
+    however many invocations the OTHER alternatives contain (i % 4: alternatives swapped / two invocations in the first alternative / invocation before the disjunction)"""
+    out = []
+    for i in range(n):
+        two = {"params": ["ident", "ident"], "body": [("cl", 0, [("v", ("p", 0)), ("v", 7)], []), ("cl", 0, [("v", 7), ("v", ("p", 1))], [])]}
+        p = {"rels": [{"arity": 2}, {"arity": 1}, {"arity": 1}, {"arity": 1}], "macros": [two], "rules": []}
+        inv = lambda a, b: ("mac", 0, [("id", a), ("id", b)])
+        alt_m = [inv(0, 1)] if i % 4 != 2 else [inv(0, 5), inv(5, 1)]
+        alt_s = [("cl", 2, [("v", 0)], []), ("let", 1, ("var", 0))]
+        alts = [alt_m, alt_s] if i % 4 != 1 else [alt_s, alt_m]
+        body = [("cl", 1, [("v", 0)], []), ("or", alts), inv(1, 2)]
+        if i % 4 == 3: body = [("cl", 1, [("v", 0)], []), inv(0, 1), ("or", [[inv(1, 2)], [("cl", 2, [("v", 1)], []), ("let", 2, ("var", 1))]])]
+        p["rules"].append({"heads": [(3, [("var", 2)])], "body": body})
+        out.append(p)
+    return out
+
+
+def md_input(rng):
+    n = rng.range(5, 8)
+    e = [(k, k + 1) for k in range(n)] + [(rng.below(n), rng.below(n + 1)) for _ in range(rng.below(3))]
+    return {0: list(dict.fromkeys(rng.shuffle(e))), 1: [(0,)] + ([(rng.below(3),)] if rng.chance(1, 2) else []), 2: [(x,) for x in range(n) if rng.chance(1, 3)], 3: []}
+
+
 def nw_input(rng, j):
     a = [(x,) for x in rng.shuffle(list(range(rng.range(1, 5))))]
     err = [] if j % 2 == 0 else [(rng.below(4), rng.below(4)) for _ in range(rng.range(1, 3))]
@@ -271,6 +296,10 @@ def build(rng, tier):
         q = S.expand_spec(p)
         inputs = [mh_input(rng.fork(f"mh_{i}i{j}")) for j in range(5 if quick else 14)]
         add(f"m{i}", p, q, "multi-head-side-stream", inputs)
+    for i, p in enumerate(md_programs(4 if quick else 8)):
+        q = S.expand_spec(p)
+        inputs = [md_input(rng.fork(f"md_{i}i{j}")) for j in range(4 if quick else 10)]
+        add(f"d{i}", p, q, "macro-in-disjunction-stream", inputs)
     for i, p in enumerate(nw_programs(rng.fork("nw"), 3 if quick else 9)):
         q = S.expand_spec(p)
         inputs = [nw_input(rng.fork(f"nw_{i}i{j}"), j) for j in range(4 if quick else 12)]
